@@ -696,7 +696,7 @@ const PROFS: [Prof; 16] = [
     Prof { tool: "truecl", game: "th08", magic: "!eclmap", diff: true, fixed12: false, strings: Some("z(bs=4)") },
 ];
 
-const OPCODES: [i64; 14] = [120, 126, 127, 128, 200, 254, 255, 256, 257, 600, 1000, 32767, 32768, 65534];
+const OPCODES: [i64; 15] = [120, 126, 127, 128, 200, 254, 255, 256, 257, 600, 1000, 32767, 32768, 65534, 65535];
 const TIMES: [i64; 16] = [0, 1, 2, 100, 127, 128, 255, 256, 32767, 32768, 65535, 65536, -1, -32768, -32769, 2147483647];
 const INTS: [i64; 14] = [0, 1, -1, 255, 256, 32767, 32768, 65535, 65536, -32768, -32769, 2147483647, -2147483648, 305419896];
 const STRLENS: [usize; 14] = [0, 1, 3, 4, 5, 100, 250, 251, 252, 253, 255, 256, 300, 1000];
